@@ -61,12 +61,13 @@ M == INSTANCE Mac
 \* [k |-> "inst", c |-> sequence of chains], each chain [a, c] being a maximal run of applications in which every
 \* `in` is the previous `out` (split structurally by the driver); a digest is then looked for among the
 \* chains that start with the message's first block.
-CfsOf(cfs, a) == SelectSeq(cfs, LAMBDA c : c.a = a)
+HookName(a) == IF a \in {"gost256", "gost512"} THEN "streebog" ELSE a
+CfsOf(cfs, a) == SelectSeq(cfs, LAMBDA c : c.a = HookName(a))
 HInst(inst, a, msg) ==
   LET bs == D!Chunks(D!Pad(a, msg), D!BlockSize(a))
       n == Len(bs)
       \* candidates: chains of the right length whose first and last blocks are the message's
-      C == {i \in 1..Len(inst) : inst[i].a = a /\ Len(inst[i].c) = n /\ inst[i].c[1].blk = bs[1] /\ inst[i].c[n].blk = bs[n]}
+      C == {i \in 1..Len(inst) : inst[i].a = HookName(a) /\ Len(inst[i].c) = n /\ inst[i].c[1].blk = bs[1] /\ inst[i].c[n].blk = bs[n]}
       R == {D!StdDigest(a, msg, inst[i].c) : i \in C} \ {<<>>} IN
   IF R = {} THEN <<>> ELSE CHOOSE r \in R : TRUE
 H(cfs, a, msg) == IF cfs.k = "inst" THEN HInst(cfs.c, a, msg) ELSE D!StdDigest(a, msg, CfsOf(cfs.c, a))
@@ -159,6 +160,30 @@ Sha1crypt(cfs, p, salt, iters) ==          \* iters: canonical decimal digits, v
   IF fin = <<>> THEN Bad ELSE
   S!S_sha1d \o iters \o <<36>> \o salt \o <<36>> \o grp(0, 1, 2) \o grp(3, 4, 5) \o grp(6, 7, 8) \o grp(9, 10, 11)
      \o grp(12, 13, 14) \o grp(15, 16, 17) \o grp(18, 19, 0)
+
+\* gost-yescrypt: HMAC_GOSTR3411_2012_256(HMAC_GOSTR3411_2012_256(GOST2012_256(K), S), yescrypt(K, S)), where the
+\* yescrypt value is taken from the library's own $y$ result for the same parameters and salt (yhash)
+GS == INSTANCE Gensalt
+HmacGost(cfs, key, msg) ==
+  LET kp == key \o Zeros(64 - Len(key))
+      inner == H(cfs, "gost256", M!XorC(kp, 54) \o msg) IN
+  IF inner = <<>> THEN <<>> ELSE H(cfs, "gost256", M!XorC(kp, 92) \o inner)
+\* inverse of the yescrypt base-64 (groups of 4 characters = 24 bits, least significant first)
+Dec64LE(cs) ==
+  FoldLeft(LAMBDA acc, g :
+             LET k == S!Min(4, Len(cs) - 4 * (g - 1))
+                 v == FoldLeft(LAMBDA a2, j : a2 + S!B64Val(cs[4 * (g - 1) + j]) * (64 ^ (j - 1)), 0, Seq1To(k))
+                 nb == IF k = 4 THEN 3 ELSE k - 1 IN
+             acc \o [b \in 1..nb |-> (v \div (256 ^ (b - 1))) % 256],
+           <<>>, Seq1To((Len(cs) + 3) \div 4))
+GostYescrypt(cfs, p, canon, yhash) ==
+  LET y == Dec64LE(SubSeq(yhash, Len(yhash) - 42, Len(yhash)))
+      hk == H(cfs, "gost256", p) IN
+  IF hk = <<>> THEN Bad ELSE
+  LET interm == HmacGost(cfs, hk, canon) IN
+  IF interm = <<>> THEN Bad ELSE
+  LET y2 == HmacGost(cfs, interm, y) IN
+  IF y2 = <<>> THEN Bad ELSE canon \o <<36>> \o GS!Enc64LE(y2)
 
 \* dispatcher: the hash method m must return; "skip" when the method has no script here
 SaltOf(canon, n) == S!Drop(canon, n)
